@@ -49,6 +49,11 @@ var c15fillers = []struct {
 var c15wraps = []struct{ pre, post string }{
 	{"", ""}, {"<%= if (true) { %>\n", "\n<% } %>"}, {"<%= for (w) in [1] { %>\n", "\n<% } %>"}, {"<% let fw = fn() { %>\n", "\n<% } %>\n<%= fw() %>"}, {"<%= blk() { %>\n", "\n<% } %>"},
 	{"<%= if (false) { %>\nno\n<% } else { %>\n", "\n<% } %>"},
+	// blocks that a helper evaluates in a context of its own: a block helper, the default block of contentOf,
+	// a stored block replayed later (the failing statement is still the one inside the block)
+	{"<%= blkctx({w: 1}) { %>\n", "\n<% } %>"}, {"<%= contentOf(\"c15missing\") { %>\ntext\n", "\n<% } %>"},
+	{"<% contentFor(\"c15side\") { %>\n a\n", "\n<% } %>\ntext\n<%= contentOf(\"c15side\") %>"}, {"<%= if (true) { %>\n<%= blkctx({w: 2}) { %>\n\n", "\n<% } %>\n<% } %>"},
+	{"<% contentFor(\"c15in\") { %>\n", "\n<% } %>\n<%= for (w) in [1] { %>\n<%= contentOf(\"c15in\", {w: w}) %>\n<% } %>"},
 }
 
 func init() {
